@@ -15,6 +15,7 @@ pub const MODE_SWARM: u8 = 2;
 pub const MODE_BEXH: u8 = 3;
 pub const MODE_BPERM: u8 = 4;
 pub const MODE_BINS: u8 = 5;
+pub const MODE_GATE: u8 = 0;
 
 pub fn mode_name(m: u8) -> &'static str {
     match m {
@@ -23,6 +24,7 @@ pub fn mode_name(m: u8) -> &'static str {
         MODE_BEXH => "builder-chains",
         MODE_BPERM => "builder-orders",
         MODE_BINS => "builder-insertions",
+        MODE_GATE => "hermeticity-gate",
         _ => "?",
     }
 }
